@@ -61,4 +61,13 @@ NoLostUpdate ==
       ELSE \A i \in Inst : VarBytes(mem, i) = WAdd(Init0, Raw(K))
 (* every instance leaves through its exit instruction *)
 AllExit == AllDone => \A i \in Inst : Exited(cpu[i])
+(* verdict collection: always TRUE, but prints one line per distinct final or faulted state, so
+   that one TLC run reports every failing case and not only the first (Xadd.cfg with the real
+   invariants is used to obtain the counterexample schedule for a replay)                     *)
+Bad == \/ ~NoFault
+       \/ (AllDone /\ ~(NoLostUpdate /\ AllExit))
+Observe == IF Bad THEN PrintT(<<"VERDICT", cid, FALSE,
+                                 [i \in Inst |-> cpu[i].st], [i \in Inst |-> VarBytes(mem, i)]>>)
+           ELSE IF AllDone THEN PrintT(<<"VERDICT", cid, TRUE, <<>>, <<>>>>)
+           ELSE TRUE
 =============================================================================
